@@ -28,9 +28,12 @@ import ICal.Driver.BodiesSEFull
 import ICal.Driver.BodiesDDD
 import ICal.Driver.BodiesRecur
 import ICal.Driver.BodiesAdd
+import ICal.Driver.BodiesTzUse
+import ICal.Driver.BodiesCDictSort
+import ICal.Driver.BodiesTz
 open ICal.Driver
 
-def handlers : List (String → List String → Option String) := [handleText, handleFold, handleLine, handleTree, handleStartEnd, handleCodec, handleCDict, handleWalk, handleTz, handleAlarm, handleRecur, handleEncode, handleZoned, handleBodies, handleBodiesParser, handleBodiesLine, handleBodiesFold, handleBodiesText, handleBodiesAlarm, handleBodiesWalk, handleBodiesSer, handleBodiesCDict, handleBodiesSE, handleBodiesParse, handleBodiesAlarmTimes, handleBodiesSerLines, handleBodiesSEFull, handleBodiesDDD, handleBodiesRecur, handleBodiesAdd]
+def handlers : List (String → List String → Option String) := [handleText, handleFold, handleLine, handleTree, handleStartEnd, handleCodec, handleCDict, handleWalk, handleTz, handleAlarm, handleRecur, handleEncode, handleZoned, handleBodies, handleBodiesParser, handleBodiesLine, handleBodiesFold, handleBodiesText, handleBodiesAlarm, handleBodiesWalk, handleBodiesSer, handleBodiesCDict, handleBodiesSE, handleBodiesParse, handleBodiesAlarmTimes, handleBodiesSerLines, handleBodiesSEFull, handleBodiesDDD, handleBodiesRecur, handleBodiesAdd, handleBodiesTzUse, handleBodiesCDictSort, handleBodiesTz]
 
 def step (line : String) : String :=
   let l := line.dropRightWhile (fun c => c == (Char.ofNat 10) || c == (Char.ofNat 13))
